@@ -14,7 +14,11 @@ import (
 	"verifharness/checks/c07"
 	"verifharness/checks/c08"
 	"verifharness/checks/c09"
+	"verifharness/checks/c10"
+	"verifharness/checks/c11"
+	"verifharness/checks/c12"
 	"verifharness/checks/c14"
+	"verifharness/checks/c15"
 	"verifharness/checks/c18"
 	"verifharness/checks/c19"
 	"verifharness/core"
@@ -33,7 +37,11 @@ var table = map[string]entry{
 	"C07": {"exploration", c07.Run},
 	"C08": {"exploration", c08.Run},
 	"C09": {"fault_enumeration", c09.Run},
+	"C10": {"exploration", c10.Run},
+	"C11": {"exploration", c11.Run},
+	"C12": {"exploration", c12.Run},
 	"C14": {"exploration", c14.Run},
+	"C15": {"exploration", c15.Run},
 	"C18": {"exploration", c18.Run},
 	"C19": {"exploration", c19.Run},
 }
